@@ -236,9 +236,10 @@ class CuboidalDescription(ShapeDescriptionBase):
     
     def __init__(self):
         super().__init__()
-        self.eqRadiusFactorMin = self.eqRadiusFactor(1)
+        # Use the cuboidal formulas directly since eqRadiusFactor(1) and thermoFactor(1) return the minimum factors of the base class (1)
+        self.eqRadiusFactorMin = self._eqRadius(1)
         self.kineticFactorMin = self.kineticFactor(1.0001)
-        self.thermoFactorMin = self.thermoFactor(1)
+        self.thermoFactorMin = self._thermoFactor(1)
 
     def _eqRadius(self, ar):
         '''
